@@ -117,6 +117,17 @@ def main() -> None:
         entry["witnesses"].setdefault(prop, []).append(case)
         entry["record"] = f"fixed: property={','.join(entry['properties'])} {h} {subj}"
     missing = [s for s in commits if not any(s.startswith(t[0]) for t in T)]
+    # fixes whose effect has no witness of its own: (properties, why)
+    NOWITNESS = {
+        "keep static input predicates usable as their own domain": (["C20", "C12"], "follow-up to 'input-aware domains': restores domains for static inputs, no violation of its own"),
+        "replace_assignments does not substitute 'X = t' when X occurs in t": (["C10"], "first of two sites of KF-inline-occurs; the same program is still rewritten by postprocess (pinned), so the end-to-end witness stays a known finding; seen as step-not-equivalent at 'duplication' before the fix"),
+    }
+    for subj in missing:
+        if subj in NOWITNESS:
+            props, why = NOWITNESS[subj]
+            h = commits[subj]
+            data["findings"].append({"id": f"FIXED-{h}", "status": "fixed", "commit": h, "properties": props, "what": subj, "note": why, "record": f"fixed: property={','.join(props)} {h} {subj}", "witnesses": {}})
+    missing = [s for s in missing if s not in NOWITNESS]
     json.dump(data, open(path, "w"), indent=1)
     print(len(by_commit), "fixed entries;", "commits without witness:", missing)
 
